@@ -2,6 +2,7 @@ package tools
 
 import (
 	"bytes"
+	"github.com/git-lfs/git-lfs/v3/verifhook"
 	"io"
 	"os"
 )
@@ -75,6 +76,7 @@ type CallbackReader struct {
 }
 
 func (w *CallbackReader) Read(p []byte) (int, error) {
+	verifhook.Crash("copy.burst")
 	n, err := w.Reader.Read(p)
 
 	if n > 0 {
